@@ -530,7 +530,20 @@ class CallMixin:
         else:
             res, post = self.fresh(c.returns, "ret", post)
         ens = [self.spec(e, post, env=env_post, old=pre, result=res) for e in c.ensures]
-        normal = post.assume(*ens)
+        # definitional entry assumptions of the callee (it introduces spec symbols such as deps0 / bstat0 as
+        # names for parts of ITS entry state): a conservative extension as long as the symbols are fresh here
+        defs = []
+        if getattr(c, "defines", None) and c.entry_assume:
+            cur_defs = set(getattr(self.current, "defines", ()) or ())
+            if set(c.defines) <= cur_defs:
+                # the caller introduced the same symbols itself: the callee's definitions are proof obligations
+                for i, e in enumerate(c.entry_assume):
+                    self.emit("pre@call", f"{c.key}#def{i + 1}", n, pre, self.spec(e, pre, env=env, old=pre),
+                              note=e if isinstance(e, str) else "")
+            else:
+                self.check_fresh_symbols(c, pre, n)
+                defs = [self.spec(e, pre, env=env, old=pre) for e in c.entry_assume]
+        normal = post.assume(*(defs + ens))
         # 4. exceptional returns
         for ename, spec in c.raises.items():
             cls = self.resolve_exc(ename, c)
@@ -547,7 +560,7 @@ class CallMixin:
             cz = self.spec(cond, est, env=env_e, old=pre)
             ez = [self.spec(e, est, env=env_e, old=pre) for e in list(eens) + list(c.exc_ensures)]
             if self.feasible(est, zand(cz, *ez)):
-                sink.append((est.assume(cz, *ez), Exc(cls, exact=exact)))
+                sink.append((est.assume(cz, *(ez + defs)), Exc(cls, exact=exact)))
         if c.meta_noreturn if hasattr(c, "meta_noreturn") else False:
             return
         yield normal, res
@@ -564,6 +577,23 @@ class CallMixin:
                 st = self.write_back(node, st, nv, sink)
                 newvals[m] = nv
         return st, newvals
+
+    def check_fresh_symbols(self, c, st, n):
+        names = set(c.defines)
+        seen, todo = set(), list(st.pc)
+        while todo:
+            e = todo.pop()
+            if e.get_id() in seen:
+                continue
+            seen.add(e.get_id())
+            if z3.is_quantifier(e):
+                todo.append(e.body())
+                continue
+            if z3.is_app(e):
+                if e.decl().name() in names:
+                    raise Unsupported(f"{c.key} defines {e.decl().name()}, which the caller already constrains "
+                                      f"(a second definition would not be conservative)", n)
+                todo.extend(e.children())
 
     def resolve_exc(self, name, c=None):
         if isinstance(name, type):
